@@ -393,6 +393,12 @@ impl VM {
                 }
                 OpCode::Call => {
                     let num_args = self.read_u8();
+                    // base pointers are 16 bits wide: refuse to grow the stack beyond what they can address
+                    if self.stack.len() > u16::MAX as usize {
+                        return Err(Error::TypeError(
+                            "stapel overloop: te veel waarden of te diepe recursie".to_string(),
+                        ));
+                    }
                     #[cfg(feature = "verif")]
                     if self.stack.len() < 1 + num_args as usize {
                         crate::verif::fault("call-base");
